@@ -8,6 +8,7 @@ UNITS = {
     'FRAMEDEC': dict(template='framedec.rs', rlimit=30),
     'SENDSPLIT': dict(template='sendsplit.rs', rlimit=30),
     'LINK': dict(template='link.rs', rlimit=30),
+    'REASM': dict(template='reasm.rs', rlimit=30),
 }
 
 COMMON_TRUSTED = [
@@ -53,7 +54,7 @@ PROPS = {
             'non-transfer performatives larger than the frame are cut into pseudo-frames by start_send: see known finding / DESIGN D9 (not decided by a contract here)',
             'decoding under arbitrary read fragmentation is tokio_util LengthDelimitedCodec + FramedRead (third party), not verified']),
     'C01': dict(
-        units=['FRAMEENC', 'SESSION', 'SENDSPLIT', 'LINK'],
+        units=['FRAMEENC', 'SESSION', 'SENDSPLIT', 'LINK', 'REASM'],
         lemmas={'SENDSPLIT': ['lemma_link_expected', 'lemma_link_mids'], 'FRAMEENC': ['lemma_expected_properties', 'lemma_mids_payload']}, kani=[], level='proof', title='End-to-end delivery (sequential stages only)',
         assumptions=[ASYNC, ENGINE,
             'only the sequential stages are under contract: session hold-back/stamping (SESSION) and frame splitting (FRAMEENC); link-level split, reassembly and the codec round trip are separate units where built',
@@ -85,6 +86,15 @@ PROPS = {
         assumptions=[
             'ONLY channel-max is decided. The idle time-out sentences (heartbeats within the peer\'s idle-time-out, local time-out teardown) are timed behaviour of tokio Interval/Sleep and have no contract here (no clock in either verifier) -- see DESIGN D10',
             'slab::Slab modelled as a partial map whose vacant key is unoccupied']),
+    'C10': dict(
+        units=['REASM', 'LINK'], kani=[], level='proof', title='Reassembly',
+        lemmas={'REASM': ['lemma_concat_push', 'lemma_concat_one']},
+        assumptions=[ASYNC,
+            'a multi-frame delivery buffers fewer than 2^32 bytes (otherwise the u32 section counter of IncompleteTransfer::append could overflow)',
+            'count_number_of_sections_and_offset and the chained-buffer byte reader (util::IntoReader for Vec<Payload>) are iterator/adapter code outside the Verus subset: assumed contracts',
+            'the link endpoint (ReceiverLink::on_complete_transfer: credit, decode) is a stand-in that decodes exactly the bytes it is given',
+            'resumption (transfer.state = Received{..}, transfer.resume) may trim the buffer and is outside these contracts',
+            'interleaving with other links of the session is the routing contract of unit SESSION (C11.route.transfer)']),
     'C11': dict(
         units=['SESSION', 'FRAMEENC', 'CONN', 'SENDSPLIT'],
         lemmas={'SENDSPLIT': ['lemma_link_expected'], 'FRAMEENC': ['lemma_expected_properties']}, kani=[], level='proof', title='Identifiers',
